@@ -470,8 +470,20 @@ def r_eviction_flow(ctx):
                               "eviction attempt returns at once and a satisfiable request answers 'wait' for ever")
             elif nwin > 0 and rel:
                 ctx.violation("C09.R7", fi.qual, loc(fi), "lock handed to the jobs", "the eviction lock is released while page-out jobs are still outstanding")
+            elif nwin > 0 and _counter_after_launch(p):
+                ctx.violation("C09.R7", fi.qual, loc(fi), "job counter set before the jobs are launched",
+                              "pageout_count is (re)written after a page-out job was submitted: a job that completes first decrements the old value and the late store "
+                              "overwrites its decrement, so the counter never returns to 0, the eviction lock is never released, and every later request that needs an "
+                              "eviction answers 'wait' for ever")
             else:
                 ctx.ok("C09.R3", loc(fi), f"{nwin} winner(s): candidates filtered, winners paged out, counter set, lock {'released' if nwin == 0 else 'handed to the jobs'}")
+
+
+def _counter_after_launch(p) -> bool:
+    """is Manager.pageout_count stored after the first page-out job of this path was submitted?"""
+    first = [e.seq for e in p.effects if is_call(e, qual=f"{DS}.Manager.page_out")]
+    stores = [e.seq for e in p.effects if e.kind in ("store", "aug") and (e.data.get("field") or "").endswith("Manager.pageout_count")]
+    return bool(first) and any(sq > min(first) for sq in stores)
 
 
 def r_purge(ctx):
@@ -483,13 +495,13 @@ def r_purge(ctx):
     rid = "C09.R4" if ctx.pid != "C05" else "C05.SHM"
     table = []
     for status in STATES:
-        for readers in (False, True):
+        for readers, delayed in ((False, False), (True, False), (True, True)):  # the third: a purge was already deferred once and the reader is still there
             for is_exit in (False, True):
-                d = dset(status, readers={"r": NOW - 9} if readers else {}, name="d")
+                d = dset(status, readers={"r": NOW - 9} if readers else {}, name="d", delayed=delayed)
                 env = {"self.datasets": {"k": d}, "self.free_space": 3}
                 paths = Interp(repo, call_models=MODELS).explore(fi, env=env, args={"key": "k", "is_exit": is_exit})
                 ctx.evals(len(paths))
-                atoms = {"status": status, "readers": readers, "is_exit": is_exit}
+                atoms = {"status": status, "readers": readers, "is_exit": is_exit, **({"purge_already_deferred": True} if delayed else {})}
                 for p in paths:
                     unl = [e for e in p.effects if e.kind == "call" and e.data.get("method") == "unlink"]
                     da = final_ds(p, "d") or d
